@@ -186,6 +186,46 @@ def run(ctx):
                       desc="%s: `%s` is spelling-independent" % (f.short, norm(t)[:40]))
     ctx.floor("R4.2", "branch conditions / comparisons inspected", n_tests, 40)
 
+    ctx.rule("R4.5", "whether a group is a top-level group is decided by object identity, not by (order-sensitive) group equality")
+    hgc = prog.find_class("HedGroup")
+    gag = hgc.methods.get("get_all_groups")
+    if gag is None:
+        raise AnalysisError("anchor HedGroup.get_all_groups vanished")
+    ctx.saw(gag)
+    n_flag = 0
+    for x in walk_no_nested(gag.node):
+        if isinstance(x, ast.Tuple) and len(x.elts) == 2 and isinstance(x.ctx, ast.Load):
+            flag = x.elts[1]
+            if isinstance(flag, ast.Constant):
+                continue
+            n_flag += 1
+            by_eq = [c for c in ast.walk(flag) if isinstance(c, ast.Compare) and any(
+                isinstance(o, (ast.In, ast.NotIn, ast.Eq, ast.NotEq)) for o in c.ops)]
+            by_id = [c for c in ast.walk(flag) if isinstance(c, ast.Compare) and any(isinstance(o, (ast.Is, ast.IsNot)) for o in c.ops)]
+            helper_id = False
+            for c in ast.walk(flag):
+                if isinstance(c, ast.Call):
+                    for k, t in cg.resolve_call(c, gag):
+                        if k == "precise" and any(isinstance(y, ast.Compare) and any(isinstance(o, (ast.Is, ast.IsNot)) for o in y.ops)
+                                                  for y in ast.walk(t.node)) and not any(
+                                isinstance(y, ast.Compare) and any(isinstance(o, (ast.In, ast.NotIn)) for o in y.ops) for y in ast.walk(t.node)):
+                            helper_id = True
+            ctx.check(not by_eq and (by_id or helper_id), "R4.5", gag.qualname, x, loc(gag, x),
+                      "the 'is a top-level group' flag `%s` is computed with equality/membership: a nested group that equals a "
+                      "top-level group (same members in the same order) is treated as top-level and its placement errors vanish, "
+                      "while the same group with its members reordered is still reported" % norm(flag)[:50],
+                      desc="top-level flag `%s` decided by identity" % norm(flag)[:40])
+    ctx.floor("R4.5", "depth flags computed in get_all_groups", n_flag, 1)
+    ctx.rule("R4.4", "sibling loops of the validators keep no conditional state from one sibling to the next")
+    from sa.stale import check_no_stale_state
+    sib = [f for f in prog.functions.values() if f.module.name in (
+        "hed.validator.util.group_util", "hed.validator.def_validator", "hed.validator.onset_validator",
+        "hed.validator.hed_validator", "hed.validator.util.tag_util", "hed.validator.util.class_util")]
+    nl = check_no_stale_state(ctx, "R4.4", sib, {
+        ("GroupValidator._check_for_duplicate_groups_recursive", "prev_child"):
+            "adjacent-equality scan over the canonically sorted view (R4.1 makes the order canonical)"},
+        "The verdict for one tag or group then depends on which siblings were visited before it, i.e. on sibling order.")
+    ctx.floor("R4.4", "loops in the validator modules", nl, 20)
     ctx.rule("R4.3", "the delimiter scan decides on the blank-stripped form of the accumulated text")
     delimiter_scan_rule(ctx, "R4.3")
 
